@@ -624,5 +624,7 @@ func TestC07(t *testing.T) {
 			}
 		}
 	}
-	run.Main(t, "C07", cases, map[string]any{"loss_family": fmt.Sprintf("small-MTU handshakes x every mask with <=%d fault over the first %d datagrams per direction (drop, hold3, dup)", lossK, lossN), "configs": len(configs(env.Thorough())), "positions": 13, "follow_ups": "none, second Write, Close, injected unprotected application data"})
+	pk := pubKeyCases(p, env.Thorough(), env.Seed+1)
+	cases = append(cases, pk...)
+	run.Main(t, "C07", cases, map[string]any{"public_key_observer_cases": len(pk), "loss_family": fmt.Sprintf("small-MTU handshakes x every mask with <=%d fault over the first %d datagrams per direction (drop, hold3, dup)", lossK, lossN), "configs": len(configs(env.Thorough())), "positions": 13, "follow_ups": "none, second Write, Close, injected unprotected application data"})
 }
